@@ -78,6 +78,26 @@ func pokeKeyV1(kt string, i int) (vs []pokeViolation) {
 	if scan() != before {
 		vs = append(vs, pokeViolation{"v1:key-of-request", "modifying the Key / ExclusiveStartKey of a finished request changed the stored item"})
 	}
+	// what a read returns when there is nothing to return: the item of an absent key, the LastEvaluatedKey of a complete
+	// read — the caller may write into those maps (get-or-create, building a resume token) without any later read seeing it
+	hv2, rv2 := keyAVs(kt, i+100)
+	absent := Item{{[]byte("h"), hv2}, {[]byte("r"), rv2}}
+	if ga, err := c.GetItem(&v1sdk.GetItemInput{TableName: &tbl, Key: toV1Item(absent)}); err == nil {
+		if ga.Item != nil {
+			ga.Item["scribbled"] = &v1sdk.AttributeValue{S: sp("x")}
+		}
+		if gb, err := c.GetItem(&v1sdk.GetItemInput{TableName: &tbl, Key: toV1Item(absent)}); err == nil && len(gb.Item) != 0 {
+			vs = append(vs, pokeViolation{"v1:output-of-GetItem-absent", "writing into the item returned for an absent key changed what a later GetItem of an absent key returns"})
+		}
+	}
+	if sa, err := c.Scan(&v1sdk.ScanInput{TableName: &tbl}); err == nil {
+		if sa.LastEvaluatedKey != nil {
+			sa.LastEvaluatedKey["scribbled"] = &v1sdk.AttributeValue{S: sp("x")}
+		}
+		if sb, err := c.Scan(&v1sdk.ScanInput{TableName: &tbl}); err == nil && len(sb.LastEvaluatedKey) != 0 {
+			vs = append(vs, pokeViolation{"v1:LastEvaluatedKey-of-Scan", "writing into the LastEvaluatedKey of a complete Scan made a later complete Scan report a key"})
+		}
+	}
 	// the key of a delete whose old item is returned, then a re-creation by update
 	k = toV1Item(keyItem)
 	do, err := c.DeleteItem(&v1sdk.DeleteItemInput{TableName: &tbl, Key: k, ReturnValues: sp("ALL_OLD")})
@@ -142,6 +162,42 @@ func pokeKeyV2(kt string, i int) (vs []pokeViolation) {
 	scribbleV2Item(k)
 	if scan() != before {
 		vs = append(vs, pokeViolation{"v2:key-of-request", "modifying the Key / ExclusiveStartKey of a finished request changed the stored item"})
+	}
+	hv2, rv2 := keyAVs(kt, i+100)
+	absent := Item{{[]byte("h"), hv2}, {[]byte("r"), rv2}}
+	if ga, err := c.GetItem(ctx, &dynamodb.GetItemInput{TableName: &tbl, Key: toV2Item(absent)}); err == nil {
+		if ga.Item != nil {
+			ga.Item["scribbled"] = &v2types.AttributeValueMemberS{Value: "x"}
+		}
+		if gb, err := c.GetItem(ctx, &dynamodb.GetItemInput{TableName: &tbl, Key: toV2Item(absent)}); err == nil && len(gb.Item) != 0 {
+			vs = append(vs, pokeViolation{"v2:output-of-GetItem-absent", "writing into the item returned for an absent key changed what a later GetItem of an absent key returns"})
+		}
+	}
+	kc := "h = :h"
+	for _, read := range []func() (map[string]v2types.AttributeValue, error){
+		func() (map[string]v2types.AttributeValue, error) {
+			o, err := c.Scan(ctx, &dynamodb.ScanInput{TableName: &tbl})
+			if err != nil {
+				return nil, err
+			}
+			return o.LastEvaluatedKey, nil
+		},
+		func() (map[string]v2types.AttributeValue, error) {
+			o, err := c.Query(ctx, &dynamodb.QueryInput{TableName: &tbl, KeyConditionExpression: &kc, ExpressionAttributeValues: map[string]v2types.AttributeValue{":h": toV2(hv)}})
+			if err != nil {
+				return nil, err
+			}
+			return o.LastEvaluatedKey, nil
+		},
+	} {
+		if lek, err := read(); err == nil {
+			if lek != nil {
+				lek["scribbled"] = &v2types.AttributeValueMemberS{Value: "x"}
+			}
+			if lek2, err := read(); err == nil && len(lek2) != 0 {
+				vs = append(vs, pokeViolation{"v2:LastEvaluatedKey-of-read", "writing into the LastEvaluatedKey of a complete read made a later complete read report a key"})
+			}
+		}
 	}
 	k = toV2Item(keyItem)
 	do, err := c.DeleteItem(ctx, &dynamodb.DeleteItemInput{TableName: &tbl, Key: k, ReturnValues: v2types.ReturnValueAllOld})
